@@ -299,23 +299,40 @@ func TestVerifC18(t *testing.T) {
 	}
 	defer os.RemoveAll(tmp)
 	for i, sc := range plan {
-		obsPath := filepath.Join(tmp, fmt.Sprintf("obs_%d.json", i))
-		racePath := filepath.Join(tmp, fmt.Sprintf("race_%d", i))
-		scb, _ := json.Marshal(sc)
-		grace := vEnvInt("VERIF_C18_GRACE_S", 20)
-		cmd := exec.Command(os.Args[0], "-test.run", "^TestVerifC18Child$", "-test.count=1",
-			"-test.timeout", fmt.Sprintf("%ds", sc.Ms/1000+grace+60))
-		cmd.Env = append(os.Environ(), "VERIF_C18_SCEN="+string(scb), "VERIF_C18_OBS="+obsPath,
-			"GORACE=log_path="+racePath+" halt_on_error=0 history_size=3", "VERIF_OUT="+tmp)
-		var buf bytes.Buffer
-		cmd.Stdout, cmd.Stderr = &buf, &buf
-		cmd.Dir = tmp
-		t0 := time.Now()
-		runErr := cmd.Run()
-		el := time.Since(t0)
 		var obs vC18Obs
-		if b, err := os.ReadFile(obsPath); err == nil {
-			json.Unmarshal(b, &obs)
+		var buf bytes.Buffer
+		var runErr error
+		var el time.Duration
+		racePath := ""
+		for attempt := 0; attempt < 3; attempt++ {
+			obsPath := filepath.Join(tmp, fmt.Sprintf("obs_%d_%d.json", i, attempt))
+			racePath = filepath.Join(tmp, fmt.Sprintf("race_%d_%d", i, attempt))
+			scb, _ := json.Marshal(sc)
+			grace := vEnvInt("VERIF_C18_GRACE_S", 20)
+			cmd := exec.Command(os.Args[0], "-test.run", "^TestVerifC18Child$", "-test.count=1",
+				"-test.timeout", fmt.Sprintf("%ds", sc.Ms/1000+grace+60))
+			cmd.Env = append(os.Environ(), "VERIF_C18_SCEN="+string(scb), "VERIF_C18_OBS="+obsPath,
+				"GORACE=log_path="+racePath+" halt_on_error=0 history_size=3", "VERIF_OUT="+tmp)
+			buf.Reset()
+			cmd.Stdout, cmd.Stderr = &buf, &buf
+			cmd.Dir = tmp
+			t0 := time.Now()
+			runErr = cmd.Run()
+			el = time.Since(t0)
+			obs = vC18Obs{}
+			if b, err := os.ReadFile(obsPath); err == nil {
+				json.Unmarshal(b, &obs)
+			}
+			o := buf.String()
+			if obs.Done || obs.Deadlock != "" || strings.Contains(o, "panic:") || strings.Contains(o, "fatal error:") ||
+				strings.Contains(o, "DATA RACE") || strings.Contains(o, "test timed out") {
+				break
+			}
+			// the scenario could not even be set up (t.Fatal in a fixture: no port, no host): not an observation
+			t.Logf("scenario %s: set-up failed (attempt %d): %s", sc.Name, attempt, o)
+			if attempt == 2 {
+				t.Errorf("scenario %s could not be set up: %s", sc.Name, o)
+			}
 		}
 		// data races
 		sigs := map[string]bool{}
@@ -352,9 +369,8 @@ func TestVerifC18(t *testing.T) {
 		if obs.Deadlock != "" {
 			vC18Direct("deadlock:"+sc.Name, obs.Deadlock, sc)
 			crashed = 1
-		} else if !obs.Done {
+		} else if o := buf.String(); !obs.Done && (strings.Contains(o, "panic:") || strings.Contains(o, "fatal error:") || strings.Contains(o, "test timed out")) {
 			// the child died: fatal error (concurrent map access, all goroutines asleep), unrecovered panic, timeout
-			o := buf.String()
 			kind := "crash"
 			switch {
 			case strings.Contains(o, "all goroutines are asleep") || strings.Contains(o, "test timed out"):
